@@ -8,6 +8,7 @@ package main
 // before 5 s of (virtual) time, and the handler keeps reading until a Read reports the deadline.
 
 import (
+	"bytes"
 	"fmt"
 	"sync"
 	"testing"
@@ -86,12 +87,29 @@ func c03Gen(rt *rapid.T, e *aEnv) c03Case {
 		c.Unval = c03RegGen(rt, "unval", c.V6)
 	}
 	kind := rapid.SampledFrom([]string{"random", "random", "lookalike", "static+garbage", "static+garbage", "flip-genuine", "flip-genuine",
-		"wrong-phantom", "unvalidated", "unknown-secret", "obfs4-long"}).Draw(rt, "kind")
+		"wrong-phantom", "unvalidated", "unknown-secret", "obfs4-long", "constant-fill", "static+constant-fill"}).Draw(rt, "kind")
 	var data []byte
 	switch kind {
 	case "random":
 		n := rapid.SampledFrom(aLens).Draw(rt, "len")
 		data = c03Bytes(rt, n, "rnd")
+	case "constant-fill", "static+constant-fill":
+		// degenerate values for the key-agreement step behind a tag position (all-zero / all-one
+		// representatives are low-order points), and other constant fills
+		var head []byte
+		if kind == "static+constant-fill" {
+			head = rapid.SampledFrom(c03Static).Draw(rt, "head")
+		}
+		fill := rapid.SampledFrom([]byte{0x00, 0x00, 0xff, 0x01, 0x7f, 0x80, 0xec}).Draw(rt, "fill")
+		n := rapid.SampledFrom([]int{31, 32, 33, 63, 64, 65, 100, 1000, 4096, 8192, 9000}).Draw(rt, "len")
+		data = append(append([]byte(nil), head...), bytes.Repeat([]byte{fill}, n)...)
+		if rapid.Bool().Draw(rt, "tail") {
+			data = append(data, c03Bytes(rt, rapid.SampledFrom([]int{1, 500, 5000}).Draw(rt, "taillen"), "tail")...)
+		}
+		// a prefix registration must exist for the tag to be examined at all
+		if rapid.IntRange(0, 2).Draw(rt, "addprefixreg") > 0 {
+			c.Regs = append(c.Regs, aRegSpec{Secret: rapid.IntRange(0, 5).Draw(rt, "csecret"), TT: 1, PrefixID: rapid.SampledFrom(aPrefixIDs).Draw(rt, "cprefix"), Phantom: 0, V6: c.V6})
+		}
 	case "lookalike":
 		head := rapid.SampledFrom(c03Lookalikes).Draw(rt, "head")
 		n := rapid.SampledFrom(aLens).Draw(rt, "len")
@@ -257,6 +275,11 @@ func c03Oracle(conn *vconn.Conn, returned bool, panicked any, realDur time.Durat
 		}
 	} else {
 		classes = append(classes, "real-time-wait")
+		// the handler waited in real time. Bytes the peer had already sent (scripted without a
+		// pause, so available at once) must still have been read: the station keeps reading.
+		if n := conn.AvailableUnread(); n > 0 {
+			return "stopped-reading", fmt.Sprintf("handler stopped reading with %d byte(s) of the probe available and unread, and waited %v without reading", n, realDur), classes
+		}
 	}
 	return "", "", classes
 }
